@@ -655,6 +655,8 @@ pub fn coordinator_main(check: &dyn Check, ctx: &Ctx, jobs: u64, max_secs: Optio
         let mut body = String::new();
         for f in &unexplained {
             body.push_str(&f.1);
+            body.push('\t');
+            body.push_str(&crate::util::json_get_str(&f.2, "shape").unwrap_or_default());
             body.push('\n');
         }
         let _ = std::fs::write(&path, body);
